@@ -47,6 +47,8 @@ def main():
     m = re.search(r'-D(USE_[A-Z_]+=\d)', src + res['needs'])
     if m and '#error' in src:
         flags = '-D' + m.group(1)
+    if '--wrap' in src + res['needs']:
+        flags += ' -Wl,--wrap=strndup -Wl,--wrap=free'
     ok, t = tests_pass(mut)
     res['suite_passes_with_change'] = ok
     res['suite_counts'] = t
